@@ -307,7 +307,7 @@ def py_kwargs(al, layer, size_hint, variant, stubrec, winreg):
     """A spec keyword layer -> the Python keyword arguments (winreg: id(window object) -> (kind, object))."""
     kw = {}
     for name, v in layer.items():
-        if name in ("size", "hop", "zzz", "ola_zzz", "ola_normalize"):
+        if name in ("size", "hop", "zzz", "ola_lag", "ola_normalize"):
             kw[name] = v
         elif name in ("wnd", "ola_wnd"):
             call = (lambda kind: (lambda sz: wnd_list(kind, sz)))(v)
@@ -637,7 +637,7 @@ def rand_stft_case(rng, maxsize, maxlen):
     if rng.random() < 0.5:
         e["ola_normalize"] = rng.random() < 0.5
     if e["ola"] == "stub" and rng.random() < 0.3:
-        e["ola_zzz"] = 7
+        e["ola_lag"] = 7
     if rng.random() < 0.04:
         e["zzz"] = 7
     if rng.random() < 0.04:
